@@ -17,19 +17,27 @@ def b (s : String) : Bytes := s.toUTF8.toList
 parsing the text `DeckRecord::write`/`DeckOutput` produce returns the record: the same
 values (floating point tokens in printed form) and the same default flags — embedded
 defaults come back from `n*`, trailing ones from the premature end of the record. -/
-theorem parse_write_record (cv : Conv) (fmt : Bytes → Bytes) (split : Bool) (items : List Item)
+theorem parse_write_record (cv : Conv) (fmt : Bytes → Bytes) (flush split : Bool) (items : List Item)
     (r : List Vals) (hc : Conf cv fmt items r) (hlen : r.flatten.length ≤ 2147483647)
-    (htrail : pend 0 r.flatten = 0 ∨ r.flatten.length ≤ singlePrefix items)
-    (hat : ∀ t ∈ emitToks fmt 0 r.flatten, Atomic t ∧ evenQuotes t = true) :
-    parseRecord cv items (writtenRecordText fmt split r) 47 = some (r.map (·.map (normP fmt))) :=
-  OpmVerif.DeckWrite.parse_write_record cv fmt split items r hc hlen htrail hat
+    (htrail : pend flush 0 r.flatten = 0 ∨ r.flatten.length ≤ singlePrefix items)
+    (hat : ∀ t ∈ emitToks fmt flush 0 r.flatten, Atomic t ∧ evenQuotes t = true) :
+    parseRecord cv items (writtenRecordText fmt flush split r) 47 = some (r.map (·.map (normP fmt))) :=
+  OpmVerif.DeckWrite.parse_write_record cv fmt flush split items r hc hlen htrail hat
+
+/-- `flush` is what `DeckOutput::end_record` does with defaults still pending, as the
+translator finds it in DeckOutput.cpp on this run (`outFlushPendingDefaults`).  As the code
+stands they are dropped (`false`), and `htrail` excludes the records for which that loses
+information: an item of size ALL that ends in defaulted values.  If they are written
+(`true`) nothing is dropped and `htrail` holds for every record. -/
+theorem no_restriction_when_pending_defaults_are_written (flat : Vals) : pend true 0 flat = 0 :=
+  pend_flush flat 0
 
 /-- The same at token level (no assumption on the shape of the tokens). -/
-theorem parse_write_tokens (cv : Conv) (fmt : Bytes → Bytes) (items : List Item) (r : List Vals)
+theorem parse_write_tokens (cv : Conv) (fmt : Bytes → Bytes) (flush : Bool) (items : List Item) (r : List Vals)
     (hc : Conf cv fmt items r) (hlen : r.flatten.length ≤ 2147483647)
-    (htrail : pend 0 r.flatten = 0 ∨ r.flatten.length ≤ singlePrefix items) :
-    parseItems cv items (emitToks fmt 0 r.flatten) = some (r.map (·.map (normP fmt))) :=
-  OpmVerif.DeckWrite.parse_write_tokens cv fmt items r hc hlen htrail
+    (htrail : pend flush 0 r.flatten = 0 ∨ r.flatten.length ≤ singlePrefix items) :
+    parseItems cv items (emitToks fmt flush 0 r.flatten) = some (r.map (·.map (normP fmt))) :=
+  OpmVerif.DeckWrite.parse_write_tokens cv fmt flush items r hc hlen htrail
 
 /-- Tokenising the laid-out record gives the emitted tokens; in particular the line
 split of data keywords (every 7 entries, a pending `n*` counting as one) is invisible. -/
@@ -50,9 +58,9 @@ theorem pending_defaults_token (n : Nat) (h1 : 1 ≤ n) (h2 : n ≤ 2147483647) 
 
 /-- `write_fixpoint`: print(parse(print r)) = print r, given the single assumption on
 floating point printing: re-reading a printed token prints the same token. -/
-theorem write_fixpoint (fmt : Bytes → Bytes) (hf : ∀ t, fmt (fmt t) = fmt t) (split : Bool) (r : List Vals) :
-    writeRecord fmt split (r.map (·.map (normP fmt))) = writeRecord fmt split r :=
-  OpmVerif.DeckWrite.write_fixpoint fmt hf split r
+theorem write_fixpoint (fmt : Bytes → Bytes) (hf : ∀ t, fmt (fmt t) = fmt t) (flush split : Bool) (r : List Vals) :
+    writeRecord fmt flush split (r.map (·.map (normP fmt))) = writeRecord fmt flush split r :=
+  OpmVerif.DeckWrite.write_fixpoint fmt hf flush split r
 
 /-- Integers in `int` range and all strings satisfy `ConfVal` for the concrete
 recognisers of the driver; quote-free strings print as atomic tokens. -/
@@ -73,7 +81,8 @@ def demoRecord : List Vals :=
   [[(.str (b "P 1/*"), .deck)], [(.str (b "FIELD"), .dflt)], [(.dummy, .empty)], [(.int 3, .dflt)],
    [(.int (-12), .deck)], [(.str (b "OPEN"), .dflt)], [(.int 0, .dflt)]]
 
-example : writeRecord idFmt false demoRecord = b " 'P 1/*' 3* -12 /\n" := by decide +kernel
+example : writeRecord idFmt false false demoRecord = b " 'P 1/*' 3* -12 /\n" := by decide +kernel
+example : writeRecord idFmt true false demoRecord = b " 'P 1/*' 3* -12 2* /\n" := by decide +kernel
 
 example : Conf OpmVerif.DeckIO.conv idFmt demoSchema demoRecord := by
   simp only [Conf, demoSchema, demoRecord]
@@ -82,9 +91,11 @@ example : Conf OpmVerif.DeckIO.conv idFmt demoSchema demoRecord := by
     by decide, ⟨_, rfl, rfl⟩, by decide, ⟨_, rfl, rfl⟩, trivial⟩
 
 example : demoRecord.flatten.length ≤ 2147483647 ∧
-    (pend 0 demoRecord.flatten = 0 ∨ demoRecord.flatten.length ≤ singlePrefix demoSchema) := by decide +kernel
+    (pend false 0 demoRecord.flatten = 0 ∨ demoRecord.flatten.length ≤ singlePrefix demoSchema) := by decide +kernel
 
-example : parseRecord OpmVerif.DeckIO.conv demoSchema (writtenRecordText idFmt true demoRecord) 47 = some demoRecord := by
+example : parseRecord OpmVerif.DeckIO.conv demoSchema (writtenRecordText idFmt false true demoRecord) 47 = some demoRecord := by
+  decide +kernel
+example : parseRecord OpmVerif.DeckIO.conv demoSchema (writtenRecordText idFmt true true demoRecord) 47 = some demoRecord := by
   decide +kernel
 
 example : ∀ t, idFmt (idFmt t) = idFmt t := fun _ => rfl
@@ -93,6 +104,11 @@ example : printInt (-2147483648) = b "-2147483648" ∧ classify (starTok 12) = .
 /-- the excluded shape: an item of size ALL that ends in defaults does not come back
 (the model mirrors the code: the writer drops the pending defaults). -/
 example : parseItems OpmVerif.DeckIO.conv [⟨.int, true, some (.int 0)⟩]
-    (emitToks idFmt 0 [(.int 5, .deck), (.int 0, .dflt), (.int 0, .dflt)]) = some [[(.int 5, .deck)]] := by decide +kernel
+    (emitToks idFmt false 0 [(.int 5, .deck), (.int 0, .dflt), (.int 0, .dflt)]) = some [[(.int 5, .deck)]] := by decide +kernel
+
+/-- … and comes back once `end_record` writes the pending defaults (the candidate fix). -/
+example : parseItems OpmVerif.DeckIO.conv [⟨.int, true, some (.int 0)⟩]
+    (emitToks idFmt true 0 [(.int 5, .deck), (.int 0, .dflt), (.int 0, .dflt)]) =
+      some [[(.int 5, .deck), (.int 0, .dflt), (.int 0, .dflt)]] := by decide +kernel
 
 end OpmVerif.Props.C19
